@@ -23,9 +23,10 @@ def _digest(ix, include_pyspark) -> str:
         h.update(path.encode())
         h.update(ix.by_path[path].source.encode())
     here = os.path.dirname(os.path.abspath(__file__))
-    for fn in ("effects.py", "resolve.py", "roles.py", "index.py"):
-        with open(os.path.join(here, fn), "rb") as fh:
-            h.update(fh.read())
+    for fn in sorted(os.listdir(here)):
+        if fn.endswith(".py"):
+            with open(os.path.join(here, fn), "rb") as fh:
+                h.update(fh.read())
     return h.hexdigest()[:24]
 
 
